@@ -400,7 +400,12 @@ impl Indexable for ast::BangOperator {
                         Type::List(elm_typ)
                             if matches!(
                                 *elm_typ.clone(),
-                                Type::Any | Type::String | Type::Int | Type::Bits(_) | Type::Bit
+                                Type::Any
+                                    | Type::String
+                                    | Type::Code
+                                    | Type::Int
+                                    | Type::Bits(_)
+                                    | Type::Bit
                             ) => {}
                         _ => {
                             ctx.error(
